@@ -158,15 +158,6 @@ Proof.
   replace ((f0 * d0 - b0 * s) * c) with (f0 * (d0 * c) - b0 * s * c) by ring. rewrite H. ring.
 Qed.
 
-(* ---------------------------------------------------------------- the regenerated ellipsoid table *)
-(* every published ellipsoid is registered in midgard/math/ellipsoid.py with exactly the published constants *)
-From Verif Require Gen.C05_Ellipsoids.
-Definition registered (tbl : list (String.string * Q * option Q)) (e : String.string * Q * option Q) : bool :=
-  existsb (ell_eqb e) tbl.
-Lemma ellipsoid_table_published_l :
-  forallb (registered Gen.C05_Ellipsoids.ellipsoids) published_ellipsoids = true.
-Proof. vm_compute. reflexivity. Qed.
-
 (* ---------------------------------------------------------------- f = 0: the one-step algorithm is the exact inverse *)
 Lemma sqrt_scale2 k u v : 0 <= k -> sqrt ((k * u)² + (k * v)²) = k * sqrt (u² + v²).
 Proof.
